@@ -72,6 +72,11 @@ func init() {
 			{ID: "C05.R4", Doc: "OWN: no two containers ever share a backing array (package-wide)", Run: func(c *Ctx) { c.R.Floor("C05.R4", ownRule(c, "C05.R4"), 8) }},
 			{ID: "C05.R5", Doc: "sequence model: Add, Insert, Replace, Delete, Pop, Clear, SubList, Concat executed on a folded spine (receiver lengths 0..3, stale cells in the spare capacity, Go's append/copy/slicing semantics): the visible content afterwards is exactly the model's", Run: c05Sequence},
 			{ID: "C05.R6", Doc: "reference semantics: Get returns spine[index].getVal(); IndexOf and Contains compare getVal() with == (first match / any match; -1 / false when exhausted)", Run: c05Reference},
+			{ID: "C05.R10", Doc: "what Get hands back for a stored container is that container: getVal of a container returns its registered ego (= C19.R3), parseVal stores container operands as they are (= C19.R4)", Run: func(c *Ctx) {
+				n := runAs(c, "C05.R10", c19R3, nil)
+				n += runAs(c, "C05.R10", c19R4, nil)
+				c.R.Floor("C05.R10", n, 4)
+			}},
 			{ID: "C05.R9", Doc: "NewListOf(v, n): v is normalised once, before the loop, and that one field is installed n times (n aliases of one element, not n conversions)", Run: c05ListOf},
 			{ID: "C05.R8", Doc: "Reverse moves element i to n-1-i in place (= C17.R2)", Run: func(c *Ctx) { reverseRule(c, "C05.R8") }},
 			{ID: "C05.R7", Doc: "PURE: the observers (and SubList, Concat) write nothing pre-existing", Run: func(c *Ctx) {
